@@ -13,7 +13,8 @@ sys.path.insert(0, os.path.join(VERIF, "translator"))
 
 THEOREMS = ["C04_polypade_routes_agree", "C04_polypade_gradient_is_derivative", "C04_polypade_laplacian_is_second_derivative",
             "C04_polypade_smooth_at_cutoff", "C04_cusp_routes_agree", "C04_cusp_gradient_is_derivative", "C04_cusp_laplacian_is_second_derivative",
-            "C04_cusp_smooth_at_cutoff", "C04_exponential_rule", "C04_product_rule", "C04_sum_rule", "C04_hypotheses_satisfiable"]
+            "C04_cusp_smooth_at_cutoff", "C04_exponential_rule", "C04_product_rule", "C04_sum_rule", "C04_hypotheses_satisfiable",
+            "C04_determinant_is_linear_in_the_moved_row", "C04_slater_derivative_is_the_ratio_formula_on_derivative_orbitals"]
 S_F3 = "pyqmc/wf/func3d.py"
 S_WF = "wave function gradient/laplacian"
 S_KE = "pyqmc/observables/energy.py:kinetic"
@@ -181,7 +182,7 @@ def main(argv):
     ck.trusted = ["Coq 8.16.1 kernel", "Coquelicot + Coq Reals axioms (incl. Classical_Prop.classic via Coquelicot)", "translator (validated numerically per run)", "finite-difference oracles (tolerances 2e-6 gradient, 2e-5 Laplacian relative)", "PySCF fixtures"]
     ck.assumptions = ["orbital derivatives supplied by PySCF/numba evaluators are the derivatives of the orbitals (C19)", "JAX classes run with jax_enable_x64"]
     dag = ck.translate("gen_func3d")
-    ck.coq_build("C04", THEOREMS)
+    ck.coq_build("C04", THEOREMS, props_files=["C04/Props.v", "C04/Props3.v"])
     if not ck.replay:
         check_func3d(ck, dag)
         check_wfs(ck)
